@@ -2,6 +2,7 @@ package main
 
 import (
 	"fmt"
+	"math/big"
 	"go/types"
 	"sync/atomic"
 
@@ -123,7 +124,8 @@ type State struct {
 	frozen  map[*Obj]bool
 	status  string
 	msg     string
-	model   map[string]interface{}
+	model   map[string]*big.Int
+	auxVars []*Term
 	trace   []string
 	cuts    []string
 	id      int64
@@ -131,6 +133,7 @@ type State struct {
 	extra   map[string]interface{}
 	approx  bool
 	notes   []NoteRec
+	lits    map[int64]bool
 }
 
 type KnownSig struct {
@@ -175,7 +178,12 @@ func (st *State) clone() *State {
 		}
 	}
 	n.cuts = append([]string(nil), st.cuts...)
+	n.auxVars = append([]*Term(nil), st.auxVars...)
 	n.decs = nil
+	n.lits = make(map[int64]bool, len(st.lits))
+	for k := range st.lits {
+		n.lits[k] = true
+	}
 	n.forced = nil
 	if st.extra != nil {
 		n.extra = make(map[string]interface{}, len(st.extra))
@@ -190,13 +198,18 @@ func (st *State) addPC(c *Term) {
 	if c.IsTrue() {
 		return
 	}
+	if st.model != nil && !st.evalTrue(c) {
+		st.model = nil
+	}
 	if c.Op == OAnd {
 		for _, a := range c.Args {
 			st.pc = append(st.pc, a)
+			st.lits[a.ID] = true
 		}
 		return
 	}
 	st.pc = append(st.pc, c)
+	st.lits[c.ID] = true
 }
 
 func (st *State) curG() *G { return st.gs[st.cur] }
